@@ -324,186 +324,216 @@ func ruleRefill(p *Prog, r *RuleResult) {
 			}
 		}
 	}
-	fname := p.FnName(f)
-	eachInstr(f, func(i ssa.Instruction) {
-		c := callOf(i)
-		if c == nil {
-			return
+	// every other method of the input bitstream that reads the underlying source itself is held to the same
+	// obligations (a bulk path that bypasses the refill is a second refill)
+	fns := []*ssa.Function{f}
+	if tn := namedOf(top.Signature.Recv().Type()); tn != nil {
+		for _, g := range p.ModFns {
+			if g == f || g.Signature.Recv() == nil || g.Parent() != nil || namedOf(g.Signature.Recv().Type()) != tn || p.isForwarder(g) {
+				continue
+			}
+			if hasRead(g) {
+				fns = append(fns, g)
+			}
 		}
-		if isPkgFunc(c, "io", "ReadFull") || isPkgFunc(c, "io", "ReadAtLeast") {
-			n++
-			r.ok(fname+" refills with io.ReadFull/ReadAtLeast", p.IPos(i))
-			return
-		}
-		if c.IsInvoke() && c.Method.Name() == "Read" && len(c.Args) == 1 {
-			if _, ok := c.Args[0].Type().Underlying().(*types.Slice); !ok {
+	}
+	for _, f := range fns {
+		fname := p.FnName(f)
+		eachInstr(f, func(i ssa.Instruction) {
+			c := callOf(i)
+			if c == nil {
 				return
 			}
-			n++
-			if !inCycle(i.Block()) {
-				r.fail(fname+"#underlying.Read", p.IPos(i), "the buffer is refilled with a single Read of the underlying source: a short read (pipe, socket) leaves a partial 64-bit word in mid-stream, which every bulk read path treats as end of data")
+			if isPkgFunc(c, "io", "ReadFull") || isPkgFunc(c, "io", "ReadAtLeast") {
+				n++
+				r.ok(fname+" refills with io.ReadFull/ReadAtLeast", p.IPos(i))
 				return
 			}
-			// the loop must be controlled by the byte count and the error of the Read
-			cv := i.(ssa.Value)
-			usesN, usesErr := false, false
-			for _, ref := range *cv.Referrers() {
-				if ex, ok := ref.(*ssa.Extract); ok {
-					if ex.Index == 0 && len(*ex.Referrers()) > 0 {
-						usesN = true
-					}
-					if ex.Index == 1 && len(*ex.Referrers()) > 0 {
-						usesErr = true
-					}
-				}
-			}
-			// the loop must continue while the request is unsatisfied: some test in the loop compares the
-			// accumulated byte count with the requested count
-			loop := cycleOf(i.Block())
-			sizeVals := map[ssa.Value]bool{}
-			var grow func(v ssa.Value, d int)
-			grow = func(v ssa.Value, d int) {
-				if sizeVals[v] || d > 8 {
+			if c.IsInvoke() && c.Method.Name() == "Read" && len(c.Args) == 1 {
+				if _, ok := c.Args[0].Type().Underlying().(*types.Slice); !ok {
 					return
 				}
-				sizeVals[v] = true
-				if refs := v.Referrers(); refs != nil {
-					for _, ref := range *refs {
-						switch x := ref.(type) {
-						case *ssa.Phi:
-							grow(x, d+1)
-						case *ssa.BinOp:
-							if x.Op == token.ADD {
-								grow(x, d+1)
-							}
-						case *ssa.Extract:
-							if x.Index == 0 {
-								grow(x, d+1)
-							}
+				n++
+				if !inCycle(i.Block()) {
+					r.fail(fname+"#underlying.Read", p.IPos(i), "the buffer is refilled with a single Read of the underlying source: a short read (pipe, socket) leaves a partial 64-bit word in mid-stream, which every bulk read path treats as end of data")
+					return
+				}
+				// the loop must be controlled by the byte count and the error of the Read
+				cv := i.(ssa.Value)
+				usesN, usesErr := false, false
+				for _, ref := range *cv.Referrers() {
+					if ex, ok := ref.(*ssa.Extract); ok {
+						if ex.Index == 0 && len(*ex.Referrers()) > 0 {
+							usesN = true
+						}
+						if ex.Index == 1 && len(*ex.Referrers()) > 0 {
+							usesErr = true
 						}
 					}
 				}
-			}
-			grow(cv, 0)
-			delete(sizeVals, cv)
-			// the requested count: an integer parameter of the analysed function
-			var countP ssa.Value
-			for _, prm := range f.Params {
-				if b, ok := prm.Type().Underlying().(*types.Basic); ok && b.Info()&types.IsInteger != 0 {
-					countP = prm
-				}
-			}
-			satisfied := false
-			for lb := range loop {
-				ifi := blockIf(lb)
-				if ifi == nil {
-					continue
-				}
-				var visit func(v ssa.Value, d int)
-				visit = func(v ssa.Value, d int) {
-					if d > 4 {
+				// the loop must continue while the request is unsatisfied: some test in the loop compares the
+				// accumulated byte count with the requested count
+				loop := cycleOf(i.Block())
+				sizeVals := map[ssa.Value]bool{}
+				var grow func(v ssa.Value, d int)
+				grow = func(v ssa.Value, d int) {
+					if sizeVals[v] || d > 8 {
 						return
 					}
-					switch x := v.(type) {
-					case *ssa.BinOp:
-						switch x.Op {
-						case token.LSS, token.LEQ, token.GTR, token.GEQ, token.EQL, token.NEQ:
-							if (sizeVals[x.X] && x.Y == countP) || (sizeVals[x.Y] && x.X == countP) {
-								satisfied = true
+					sizeVals[v] = true
+					if refs := v.Referrers(); refs != nil {
+						for _, ref := range *refs {
+							switch x := ref.(type) {
+							case *ssa.Phi:
+								grow(x, d+1)
+							case *ssa.BinOp:
+								if x.Op == token.ADD {
+									grow(x, d+1)
+								}
+							case *ssa.Extract:
+								if x.Index == 0 {
+									grow(x, d+1)
+								}
 							}
 						}
-					case *ssa.UnOp:
-						visit(x.X, d+1)
-					case *ssa.Phi:
-						for _, e := range x.Edges {
-							visit(e, d+1)
+					}
+				}
+				grow(cv, 0)
+				delete(sizeVals, cv)
+				// the requested count: an integer parameter of the analysed function
+				var countP ssa.Value
+				for _, prm := range f.Params {
+					if b, ok := prm.Type().Underlying().(*types.Basic); ok && b.Info()&types.IsInteger != 0 {
+						countP = prm
+					}
+				}
+				satisfied := false
+				for lb := range loop {
+					ifi := blockIf(lb)
+					if ifi == nil {
+						continue
+					}
+					var visit func(v ssa.Value, d int)
+					visit = func(v ssa.Value, d int) {
+						if d > 4 {
+							return
+						}
+						switch x := v.(type) {
+						case *ssa.BinOp:
+							switch x.Op {
+							case token.LSS, token.LEQ, token.GTR, token.GEQ, token.EQL, token.NEQ:
+								if (sizeVals[x.X] && x.Y == countP) || (sizeVals[x.Y] && x.X == countP) {
+									satisfied = true
+								}
+							}
+						case *ssa.UnOp:
+							visit(x.X, d+1)
+						case *ssa.Phi:
+							for _, e := range x.Edges {
+								visit(e, d+1)
+							}
+						}
+					}
+					visit(ifi.Cond, 0)
+				}
+				// every exit of the refill loop is decided by the byte count reached or by an error; any other exit
+				// (an alignment shortcut, a retry budget that does not set an error ...) can leave a partial word
+				errVals := map[ssa.Value]bool{}
+				var growE func(v ssa.Value, d int)
+				growE = func(v ssa.Value, d int) {
+					if errVals[v] || d > 8 {
+						return
+					}
+					errVals[v] = true
+					if refs := v.Referrers(); refs != nil {
+						for _, ref := range *refs {
+							if ph, ok := ref.(*ssa.Phi); ok {
+								growE(ph, d+1)
+							}
 						}
 					}
 				}
-				visit(ifi.Cond, 0)
-			}
-			// every exit of the refill loop is decided by the byte count reached or by an error; any other exit
-			// (an alignment shortcut, a retry budget that does not set an error ...) can leave a partial word
-			errVals := map[ssa.Value]bool{}
-			var growE func(v ssa.Value, d int)
-			growE = func(v ssa.Value, d int) {
-				if errVals[v] || d > 8 {
-					return
-				}
-				errVals[v] = true
-				if refs := v.Referrers(); refs != nil {
-					for _, ref := range *refs {
-						if ph, ok := ref.(*ssa.Phi); ok {
-							growE(ph, d+1)
-						}
+				for _, ref := range *cv.Referrers() {
+					if ex, ok := ref.(*ssa.Extract); ok && ex.Index == 1 {
+						growE(ex, 0)
 					}
 				}
-			}
-			for _, ref := range *cv.Referrers() {
-				if ex, ok := ref.(*ssa.Extract); ok && ex.Index == 1 {
-					growE(ex, 0)
-				}
-			}
-			strayExit := ""
-			for lb := range loop {
-				ifi := blockIf(lb)
-				if ifi == nil {
-					continue
-				}
-				leaves := false
-				for _, sx := range lb.Succs {
-					if !loop[sx] {
-						leaves = true
+				strayExit := ""
+				for lb := range loop {
+					ifi := blockIf(lb)
+					if ifi == nil {
+						continue
 					}
-				}
-				if !leaves {
-					continue
-				}
-				atom, _ := condAtom(ifi.Cond)
-				okExit := false
-				if bo, ok := atom.(*ssa.BinOp); ok {
-					if (sizeVals[bo.X] && bo.Y == countP) || (sizeVals[bo.Y] && bo.X == countP) {
-						okExit = true
-					}
-					if x, _, ok := nilTest(ifi.Cond); ok && errVals[x] {
-						okExit = true
-					}
-				}
-				if !okExit {
-					// an exit that goes straight to a return carrying a definite error is an error exit too
-					// (the retry budget returning io.ErrNoProgress instead of storing it in the loop's error variable)
-					allErr := true
+					leaves := false
 					for _, sx := range lb.Succs {
-						if loop[sx] {
-							continue
-						}
-						ret, isRet := sx.Instrs[len(sx.Instrs)-1].(*ssa.Return)
-						if !isRet {
-							allErr = false
-							continue
-						}
-						rv := rvals(ret)
-						if len(rv) == 0 || !isErrType(rv[len(rv)-1].Type()) || retMayBeNil(ret, len(rv)-1) {
-							allErr = false
+						if !loop[sx] {
+							leaves = true
 						}
 					}
-					okExit = allErr
+					if !leaves {
+						continue
+					}
+					atom, _ := condAtom(ifi.Cond)
+					okExit := false
+					if bo, ok := atom.(*ssa.BinOp); ok {
+						if (sizeVals[bo.X] && bo.Y == countP) || (sizeVals[bo.Y] && bo.X == countP) {
+							okExit = true
+						}
+						if x, _, ok := nilTest(ifi.Cond); ok && errVals[x] {
+							okExit = true
+						}
+					}
+					if !okExit {
+						// an exit that goes straight to a return carrying a definite error is an error exit too
+						// (the retry budget returning io.ErrNoProgress instead of storing it in the loop's error variable)
+						allErr := true
+						for _, sx := range lb.Succs {
+							if loop[sx] {
+								continue
+							}
+							ret, isRet := sx.Instrs[len(sx.Instrs)-1].(*ssa.Return)
+							if !isRet {
+								allErr = false
+								continue
+							}
+							rv := rvals(ret)
+							if len(rv) == 0 || !isErrType(rv[len(rv)-1].Type()) || retMayBeNil(ret, len(rv)-1) {
+								allErr = false
+							}
+						}
+						okExit = allErr
+					}
+					if !okExit {
+						strayExit = p.IPos(ifi)
+					}
 				}
-				if !okExit {
-					strayExit = p.IPos(ifi)
+				// the error of each Read is looked at before the next Read: no way around the loop (or out of the
+				// function) on which the value is neither tested, stored, returned nor carried into the loop's error variable
+				if usesErr {
+					var errEx ssa.Value
+					for _, ref := range *cv.Referrers() {
+						if ex, ok := ref.(*ssa.Extract); ok && ex.Index == 1 {
+							errEx = ex
+						}
+					}
+					if dropAt, dropped := errorDroppedOnSomePath(i, errEx); dropped {
+						r.fail(fname+"#underlying.Read#error-dropped", p.IPos(dropAt), "there is a path from the underlying Read to the next Read (or to the end of the refill) on which the error it returned is neither tested nor kept: a source that delivers bytes together with an error, and does not repeat the error, has that error swallowed and the stream decodes as if nothing happened")
+					} else {
+						r.ok(fname+": the error of every underlying Read is examined or kept before the next Read", p.IPos(i))
+					}
+				}
+				if usesN && usesErr && satisfied && strayExit != "" {
+					r.fail(fname+"#underlying.Read#stray-exit", strayExit, "the refill loop has an exit that is decided neither by the number of bytes obtained versus requested nor by an error of the source: after some sequence of short reads it stops early and leaves a partial 64-bit word in mid-stream")
+				} else if usesN && usesErr && satisfied {
+					r.ok(fname+" refills in a loop around the underlying Read until the requested count is reached or an error occurs", p.IPos(i))
+				} else if usesN && usesErr {
+					r.fail(fname+"#underlying.Read", p.IPos(i), "the refill loop is not controlled by a comparison of the bytes obtained with the bytes requested: it can stop after a short read and leave a partial 64-bit word in mid-stream")
+				} else {
+					r.fail(fname+"#underlying.Read", p.IPos(i), "refill loop ignores the byte count or the error of the underlying Read")
 				}
 			}
-			if usesN && usesErr && satisfied && strayExit != "" {
-				r.fail(fname+"#underlying.Read#stray-exit", strayExit, "the refill loop has an exit that is decided neither by the number of bytes obtained versus requested nor by an error of the source: after some sequence of short reads it stops early and leaves a partial 64-bit word in mid-stream")
-			} else if usesN && usesErr && satisfied {
-				r.ok(fname+" refills in a loop around the underlying Read until the requested count is reached or an error occurs", p.IPos(i))
-			} else if usesN && usesErr {
-				r.fail(fname+"#underlying.Read", p.IPos(i), "the refill loop is not controlled by a comparison of the bytes obtained with the bytes requested: it can stop after a short read and leave a partial 64-bit word in mid-stream")
-			} else {
-				r.fail(fname+"#underlying.Read", p.IPos(i), "refill loop ignores the byte count or the error of the underlying Read")
-			}
-		}
-	})
+		})
+	}
 	r.floor(1, n, "underlying read sites in readFromInputStream")
 }
 
@@ -1157,4 +1187,89 @@ func cksumViaHelper(p *Prog, r *RuleResult, s *taskSide, f *ssa.Function, inv *s
 		r.ok(fname+": every clean exit after Inverse passes the verification helper", p.IPos(vcall))
 	}
 	return nHash
+}
+
+// errorDroppedOnSomePath: from call (whose error result is errv) there is a path back to the call, or to a return,
+// on which errv is not used: not by an instruction (test, store, return, call argument, interface conversion) and
+// not by being the incoming value of a phi on the edge taken. Returns the position where the unexamined path ends.
+func errorDroppedOnSomePath(call ssa.Instruction, errv ssa.Value) (ssa.Instruction, bool) {
+	if errv == nil {
+		return nil, false
+	}
+	useInstr := map[ssa.Instruction]bool{}
+	for _, ref := range *errv.Referrers() {
+		if _, isPhi := ref.(*ssa.Phi); isPhi {
+			continue
+		}
+		if _, isDbg := ref.(*ssa.DebugRef); isDbg {
+			continue
+		}
+		// a comparison feeds an If: the If's block is where it is examined
+		useInstr[ref] = true
+	}
+	carried := func(from, to *ssa.BasicBlock) bool {
+		for _, in := range to.Instrs {
+			ph, ok := in.(*ssa.Phi)
+			if !ok {
+				break
+			}
+			for pi, pr := range to.Preds {
+				if pr == from && ph.Edges[pi] == errv {
+					return true
+				}
+			}
+		}
+		return false
+	}
+	type st struct {
+		b   *ssa.BasicBlock
+		idx int
+	}
+	start := st{call.Block(), instrIndex(call) + 1}
+	seen := map[*ssa.BasicBlock]bool{}
+	var dfs func(s st) (ssa.Instruction, bool)
+	dfs = func(s st) (ssa.Instruction, bool) {
+		for k := s.idx; k < len(s.b.Instrs); k++ {
+			in := s.b.Instrs[k]
+			if useInstr[in] {
+				return nil, false
+			}
+			if in == call {
+				return in, true
+			}
+			if ret, ok := in.(*ssa.Return); ok {
+				return ret, true
+			}
+		}
+		for _, sc := range s.b.Succs {
+			if carried(s.b, sc) {
+				continue
+			}
+			if sc == call.Block() {
+				// re-entering the block of the call: scan up to the call
+				hit := false
+				for _, in := range sc.Instrs {
+					if useInstr[in] {
+						hit = true
+						break
+					}
+					if in == call {
+						return in, true
+					}
+				}
+				if hit {
+					continue
+				}
+			}
+			if seen[sc] {
+				continue
+			}
+			seen[sc] = true
+			if pos, bad := dfs(st{sc, 0}); bad {
+				return pos, true
+			}
+		}
+		return nil, false
+	}
+	return dfs(start)
 }
